@@ -60,6 +60,10 @@ def gen(tape: Tape, tier: str) -> dict:
         case["knobs"] = swarm_knobs(tape, len(case["chunks"][-1]))
         case["meta"]["ngroups"] = 0
         return case
+    if tape.chance("gen.kind.binned", 0.1):
+        from ..redcase import gen_binned_case
+
+        return gen_binned_case(tape)
     if tape.chance("gen.kind.multi", 0.12):
         from ..redcase import gen_multi_by_case
 
